@@ -1,5 +1,5 @@
 # C03 — a successfully loaded module is structurally well-formed.
-import os, sys, json, tempfile, shutil
+import struct, os, sys, json, tempfile, shutil
 import vcommon as V
 sys.path.insert(0, os.path.join(V.VERIF, "gen"))
 import mutate
@@ -60,6 +60,111 @@ def gen_edits(rng, chn, ln, pat, trk, ins, smp):
         k = flat.index("noxxt=1")
         flat = flat[:k + 1] + [e for e in flat[k + 1:] if not e.startswith("pat=")]
     return ",".join(flat)
+
+def gen_669(rng):
+    """a Composer 669 file with hostile header fields: order entries up to and past the pattern count, break rows around 64, sample
+    lengths around the loader's `<= 2` skip, loop starts above 2^31, loop ends around the 0xfffff marker, sample data cut short"""
+    nos = rng.choice((0, 1, 2, 3, 5, 9, 64)); nop = rng.choice((0, 1, 2, 3, 4))
+    if rng.random() < 0.04: nos = rng.choice((65, 200))
+    if rng.random() < 0.04: nop = rng.choice((129, 255))
+    nord = rng.randrange(0, 12)
+    order = [rng.choice((0, max(0, nop - 1), nop, rng.randrange(0, nop + 1))) for _ in range(nord)]
+    if rng.random() < 0.15 and order: order[rng.randrange(len(order))] = nop + 1
+    order = (order + [0xff] * 128)[:128]
+    if rng.random() < 0.05: order[127] = rng.randrange(256)
+    speed = [rng.randrange(1, 16) for _ in range(128)]
+    pbrk = [rng.choice((0, 63, 31, 64, 255)) if rng.random() < 0.12 else rng.randrange(64) for _ in range(128)]
+    hdr = rng.choice((b"if", b"if", b"JN")) + bytes(rng.randrange(32, 127) for _ in range(108)) + bytes([nos & 255, nop & 255, rng.randrange(256)]) + bytes(order) + bytes(speed) + bytes(pbrk)
+    ins = b""; lens = []
+    for _ in range(min(nos, 64)):
+        ln = rng.choice((0, 1, 2, 3, 4, 17, 64, 300, rng.randrange(0, 2000)))
+        if rng.random() < 0.05: ln = rng.choice((0x10000000, 0x10000001, 0xffffffff, 0x0fffffff))
+        lps = rng.choice((0, 1, ln // 2, ln, ln + 1, 0x80000000, 0xffffffff, 0x7fffffff, rng.randrange(0, max(1, ln + 3))))
+        lpe = rng.choice((0, 1, ln, ln + 1, ln // 2, 0xfffff, 0xffffe, 0x100000, 0xffffffff, rng.randrange(0, max(1, ln + 3))))
+        ins += bytes(rng.randrange(32, 127) for _ in range(13)) + struct.pack("<III", ln & 0xffffffff, lps & 0xffffffff, lpe & 0xffffffff); lens.append(ln)
+    pats = b"".join(bytes(rng.choice((0xff, 0xfe, rng.randrange(256))) for _ in range(1536)) for _ in range(min(nop, 128)))
+    smp = b"".join(bytes(rng.randrange(256) for _ in range(min(l, 5000))) for l in lens if 2 < l)
+    data = hdr + ins + pats + smp
+    k = rng.random()
+    if k < 0.25 and len(smp): data = data[:len(data) - rng.randrange(1, len(smp) + 1)]          # sample data cut short
+    elif k < 0.35: data = data[:rng.randrange(2, len(data))]                                       # cut anywhere
+    elif k < 0.40: data += bytes(rng.randrange(256) for _ in range(rng.choice((1, 7))))
+    return data
+
+def compare_loader(ck, engine, what, blobs, mdir, ext, want_types, mk_req, gdrv, mmodel):
+    """files that the library attributes to one loader: the extracted loader model piped through the extracted gate against the PREGATE dump of hook H1"""
+    paths = []
+    for k, (lab, blob) in enumerate(blobs):
+        pth = os.path.join(mdir, "m%05d.%s" % (k, ext)); open(pth, "wb").write(blob); paths.append(pth)
+    # other loaders come before the Protracker loader and may claim a file with this signature (ProWizard formats, Startrekker ...):
+    # only files that the library itself attributes to the Protracker loader are this model's business
+    tdrv = V.build_driver("c07_drv", ["c07_drv.c"])
+    tr = V.run([tdrv, "load"], inp="".join("TM %s\n" % pth for pth in paths), env=V.san_env(), timeout=3000).stdout.split("\n")
+    keep = [i for i, l in enumerate(tr[:len(paths)]) if l.startswith("RET 0 ") and len(l.split()) > 5 and l.split()[5] in want_types]
+    blobs = [blobs[i] for i in keep]; paths = [paths[i] for i in keep]
+    rg = V.run([gdrv, "gate"], inp="".join("- %s\n" % pth for pth in paths), env=V.san_env(), timeout=3000)
+    # split the driver's output per file: "PREGATE ..." dump (if the loader got that far) ... "RET r" [+ module dump]
+    per = []; cur = []
+    for l in rg.stdout.split("\n"):
+        cur.append(l)
+        if l.startswith("RET "): per.append(cur); cur = []
+        elif l == "ENDMOD" and per and len(per[-1]) and per[-1][0].startswith("RET") is False: pass
+    # a successful load prints its module dump after RET: attach those lines to the same record
+    recs = []; i = 0
+    lines = rg.stdout.split("\n")
+    cur = None
+    for l in lines:
+        if l.startswith("PREGATE "): cur = {"pre": [l], "ret": None}; recs.append(cur)
+        elif l.startswith("RET "):
+            if cur is None or cur["ret"] is not None: cur = {"pre": None, "ret": None}; recs.append(cur)
+            cur["ret"] = l.split()[1]
+        elif cur is not None and cur["ret"] is None and cur["pre"] is not None: cur["pre"].append(l)
+    mst = {"files": 0, "loader_refuses": 0, "gate_refuses": 0, "compared": 0}
+    req = []; meta = []
+    for (lab, blob), rec in zip(blobs, recs):
+        ty = b""
+        if rec["pre"]:
+            tl = next((x for x in rec["pre"] if x.startswith("TYPE ")), "TYPE 1 -").split()
+            try: ty = bytes.fromhex(tl[2]) if len(tl) > 2 and tl[2] != "-" else b""
+            except ValueError: ty = b""
+        req.append(mk_req(ty, blob)); meta.append((lab, blob, rec))
+    mo = V.run([mmodel], inp="\n".join(req) + "\n", timeout=3000).stdout.split("\n")
+    for (lab, blob, rec), mline in zip(meta, mo):
+        ck.count(); mst["files"] += 1; bad = None
+        if mline.startswith("FAIL"):
+            mst["loader_refuses"] += 1
+            if rec["pre"]: bad = "the loader handed a module to the gate, the model says the loader fails"
+        elif not rec["pre"]:
+            bad = "the loader failed (return %s) before the gate, the model builds a module" % rec["ret"]
+        else:
+            parts = [x.strip() for x in mline.split("|")]
+            pre = rec["pre"]
+            modl = next(x for x in pre if x.startswith("MOD ")).split()
+            got_counts = " ".join(modl[1:10])
+            got_xxo = " ".join(next((x for x in pre if x.startswith("XXO")), "XXO").split()[1:])
+            got_ins = " ".join("%s,%s" % (x.split()[2], x.split()[3]) for x in pre if x.startswith("INS "))
+            got_smp = " ".join(",".join(x.split()[2:7]) for x in pre if x.startswith("SMP "))
+            npatl = sum(1 for x in pre if x.startswith("PAT ")); ntrkl = sum(1 for x in pre if x.startswith("TRK "))
+            if parts[1] != got_counts: bad = "counts (chn len pat trk ins smp spd bpm rst): loader %s, model %s" % (got_counts, parts[1])
+            elif parts[2] != got_xxo: bad = "order list differs"
+            elif parts[3] != got_ins: bad = "instrument table (sub-instrument counts) differs"
+            elif parts[4] != got_smp:
+                a = parts[4].split(); b = got_smp.split(); j = next((j for j in range(min(len(a), len(b))) if a[j] != b[j]), -1)
+                bad = "sample %d (len,lps,lpe,flg,data): loader %s, model %s" % (j, b[j] if j >= 0 else "?", a[j] if j >= 0 else "?")
+            elif any(x.split()[2] != "64" for x in pre if x.startswith(("PAT ", "TRK ")) and "NULL" not in x): bad = "a pattern or track does not have 64 rows"
+            elif parts[0] != "RAW post=1": raise V.BuildError("%s built a module outside loader_postb for %s: its post-condition theorem would be false" % (what, lab))
+            elif (parts[5] == "gate=REJECT") != (rec["ret"] != "0") and not (rec["ret"] != "0" and parts[5] == "gate=ok"):
+                bad = "gate decision: load returned %s, model %s" % (rec["ret"], parts[5])
+            if parts[5] == "gate=REJECT": mst["gate_refuses"] += 1
+            mst["compared"] += 1
+        if bad:
+            ck.violation({"engine": engine, "label": lab, "file_hex": blob.hex() if len(blob) < 300000 else None, "what": bad,
+                          "broken": "correspondence: %s vs what the loader left behind (hook H1 dump)" % what}, key="c03:%s:" % engine + bad.split(":")[0][:40])
+        else: ck.nontrivial((engine, lab))
+    if rg.returncode != 0:
+        ck.violation({"engine": engine, "broken": "sanitizer report / crash while loading a variant (%s)" % engine, "stderr": rg.stderr[-1500:]}, key="c03-%s-crash" % engine)
+    ck.engine_stat(engine, **mst)
+
 
 def main():
     tier = sys.argv[1] if len(sys.argv) > 1 else "quick"
@@ -292,78 +397,27 @@ def main():
                         blobs.append(("%s header field edited" % lab, bytes(b)))
                     blobs.append(("%s + trailing bytes" % lab, data + bytes(rng.randrange(256) for _ in range(rng.choice((1, 2, 9))))))
                     blobs.append(("%s as a song file (no sample data)" % lab, data[:body]))
-            paths = []
-            for k, (lab, blob) in enumerate(blobs):
-                pth = os.path.join(mdir, "m%05d.mod" % k); open(pth, "wb").write(blob); paths.append(pth)
-            # other loaders come before the Protracker loader and may claim a file with this signature (ProWizard formats, Startrekker ...):
-            # only files that the library itself attributes to the Protracker loader are this model's business
-            tdrv = V.build_driver("c07_drv", ["c07_drv.c"])
-            tr = V.run([tdrv, "load"], inp="".join("TM %s\n" % pth for pth in paths), env=V.san_env(), timeout=3000).stdout.split("\n")
-            want_type = b"Amiga Protracker/Compatible".hex()
-            keep = [i for i, l in enumerate(tr[:len(paths)]) if l.startswith("RET 0 ") and len(l.split()) > 5 and l.split()[5] == want_type]
-            blobs = [blobs[i] for i in keep]; paths = [paths[i] for i in keep]
-            rg = V.run([gdrv, "gate"], inp="".join("- %s\n" % pth for pth in paths), env=V.san_env(), timeout=3000)
-            # split the driver's output per file: "PREGATE ..." dump (if the loader got that far) ... "RET r" [+ module dump]
-            per = []; cur = []
-            for l in rg.stdout.split("\n"):
-                cur.append(l)
-                if l.startswith("RET "): per.append(cur); cur = []
-                elif l == "ENDMOD" and per and len(per[-1]) and per[-1][0].startswith("RET") is False: pass
-            # a successful load prints its module dump after RET: attach those lines to the same record
-            recs = []; i = 0
-            lines = rg.stdout.split("\n")
-            cur = None
-            for l in lines:
-                if l.startswith("PREGATE "): cur = {"pre": [l], "ret": None}; recs.append(cur)
-                elif l.startswith("RET "):
-                    if cur is None or cur["ret"] is not None: cur = {"pre": None, "ret": None}; recs.append(cur)
-                    cur["ret"] = l.split()[1]
-                elif cur is not None and cur["ret"] is None and cur["pre"] is not None: cur["pre"].append(l)
-            mst = {"files": 0, "loader_refuses": 0, "gate_refuses": 0, "compared": 0}
-            req = []; meta = []
-            for (lab, blob), rec in zip(blobs, recs):
-                ty = b""
-                if rec["pre"]:
-                    tl = next((x for x in rec["pre"] if x.startswith("TYPE ")), "TYPE 1 -").split()
-                    try: ty = bytes.fromhex(tl[2]) if len(tl) > 2 and tl[2] != "-" else b""
-                    except ValueError: ty = b""
-                req.append("R %d %s" % (1 if (b"Protracker" in ty and b"clone" not in ty) or b"OpenMPT" in ty else 0, blob.hex())); meta.append((lab, blob, rec))
-            mo = V.run([mmodel], inp="\n".join(req) + "\n", timeout=3000).stdout.split("\n")
-            for (lab, blob, rec), mline in zip(meta, mo):
-                ck.count(); mst["files"] += 1; bad = None
-                if mline.startswith("FAIL"):
-                    mst["loader_refuses"] += 1
-                    if rec["pre"]: bad = "mod_load handed a module to the gate, the model says the loader fails"
-                elif not rec["pre"]:
-                    bad = "mod_load failed (return %s) before the gate, the model builds a module" % rec["ret"]
-                else:
-                    parts = [x.strip() for x in mline.split("|")]
-                    pre = rec["pre"]
-                    modl = next(x for x in pre if x.startswith("MOD ")).split()
-                    got_counts = " ".join(modl[1:10])
-                    got_xxo = " ".join(next((x for x in pre if x.startswith("XXO")), "XXO").split()[1:])
-                    got_ins = " ".join("%s,%s" % (x.split()[2], x.split()[3]) for x in pre if x.startswith("INS "))
-                    got_smp = " ".join(",".join(x.split()[2:7]) for x in pre if x.startswith("SMP "))
-                    npatl = sum(1 for x in pre if x.startswith("PAT ")); ntrkl = sum(1 for x in pre if x.startswith("TRK "))
-                    if parts[1] != got_counts: bad = "counts (chn len pat trk ins smp spd bpm rst): loader %s, model %s" % (got_counts, parts[1])
-                    elif parts[2] != got_xxo: bad = "order list differs"
-                    elif parts[3] != got_ins: bad = "instrument table (sub-instrument counts) differs"
-                    elif parts[4] != got_smp:
-                        a = parts[4].split(); b = got_smp.split(); j = next((j for j in range(min(len(a), len(b))) if a[j] != b[j]), -1)
-                        bad = "sample %d (len,lps,lpe,flg,data): loader %s, model %s" % (j, b[j] if j >= 0 else "?", a[j] if j >= 0 else "?")
-                    elif any(x.split()[2] != "64" for x in pre if x.startswith(("PAT ", "TRK ")) and "NULL" not in x): bad = "a pattern or track does not have 64 rows"
-                    elif parts[0] != "RAW post=1": raise V.BuildError("Model/ModLoad.v: mod_raw built a module outside loader_postb for %s: theorem mod_loader_establishes_post would be false" % lab)
-                    elif (parts[5] == "gate=REJECT") != (rec["ret"] != "0") and not (rec["ret"] != "0" and parts[5] == "gate=ok"):
-                        bad = "gate decision: load returned %s, model %s" % (rec["ret"], parts[5])
-                    if parts[5] == "gate=REJECT": mst["gate_refuses"] += 1
-                    mst["compared"] += 1
-                if bad:
-                    ck.violation({"engine": "modload", "label": lab, "file_hex": blob.hex() if len(blob) < 300000 else None, "what": bad,
-                                  "broken": "correspondence: Model/ModLoad.v (mod_raw) vs what mod_load left behind (hook H1 dump)"}, key="c03:modload:" + bad.split(":")[0][:40])
-                else: ck.nontrivial(("modload", lab))
-            if rg.returncode != 0:
-                ck.violation({"engine": "modload", "broken": "sanitizer report / crash while loading an M.K. variant", "stderr": rg.stderr[-1500:]}, key="c03-modload-crash")
-            ck.engine_stat("modload", **mst)
+            compare_loader(ck, "modload", "Model/ModLoad.v (mod_raw)", blobs, mdir, "mod", (b"Amiga Protracker/Compatible".hex(),),
+                           lambda ty, blob: "R %d %s" % (1 if (b"Protracker" in ty and b"clone" not in ty) or b"OpenMPT" in ty else 0, blob.hex()), gdrv, mmodel)
+        finally:
+            shutil.rmtree(mdir, ignore_errors=True)
+    # ---- (e) the Composer 669 loader: Model/C669Load.v against the PREGATE dump of hook H1
+    if not replay or json.load(open(replay)).get("engine") == "c669load":
+        gdrv = V.build_driver("c03_drv", ["c03_drv.c"]); mmodel = V.ocaml_build("modload")
+        mdir = tempfile.mkdtemp(prefix="vp-c03q-", dir="/var/tmp")
+        try:
+            if replay:
+                rpj = json.load(open(replay)); blobs = [(rpj["label"], bytes.fromhex(rpj["file_hex"]))]
+            else:
+                blobs = []
+                for f in V.corpus_files():
+                    if f.lower().endswith(".669") and os.path.getsize(f) < 60000:
+                        data = open(f, "rb").read(); lab = os.path.relpath(f, V.REPO); blobs.append((lab, data))
+                        for cut in (496, 497, 498, len(data) - 1, len(data) // 2): blobs.append(("%s cut at %d" % (lab, cut), data[:cut]))
+                for k in range(400 if tier == "quick" else 20000):
+                    blobs.append(("generated 669 #%d" % k, gen_669(rng)))
+            compare_loader(ck, "c669load", "Model/C669Load.v (c669_raw)", blobs, mdir, "669", (b"Composer 669".hex(), b"UNIS 669".hex()),
+                           lambda ty, blob: "Q %s" % blob.hex(), gdrv, mmodel)
         finally:
             shutil.rmtree(mdir, ignore_errors=True)
     ck.cov["rule"] = ("every file of test-dev/data, data/m and openmpt/* loaded by path and (with XMP_SMPCTL_SKIP) through a random stream entry point; core-format modules under all 11 player modes; "
